@@ -34,7 +34,10 @@ Apply(S, act) ==
     [] act.a = "peer_reset"     -> EnvPeerReset(S, act.c)
     [] act.a = "connect_result" -> EnvConnectResult(S, act.c, act.err)
     [] act.a = "tick"           -> EnvTick(S)
-    [] act.a = "submit"         -> SubmitAnswer(S, act.app, FromJson(act.m))
+    [] act.a = "submit"         -> LET hs == {j \in 1..Len(S.held) : S.held[j].a = act.app /\ S.held[j].m.hbh = act.m.hbh /\ S.held[j].m.e2e = act.m.e2e
+                                                                          /\ S.held[j].c = act.c0}
+                                       S1 == IF hs = {} THEN S ELSE [S EXCEPT !.held[CHOOSE j \in hs : \A k \in hs : j <= k].answered = TRUE]
+                                   IN SubmitAnswer(S1, act.app, FromJson(act.m))
 
 ConnSt(S, c) == IF c = 0 THEN "" ELSE S.conn[c].st
 \* projection of the public state, in exactly the shape the harness records (world.snap)
